@@ -6,6 +6,9 @@ import (
 	"fmt"
 	"net/url"
 	"strings"
+	"time"
+
+	"github.com/google/go-tdx-guest/testing/testdata"
 
 	"verif/sim/core"
 	"verif/sim/world"
@@ -178,6 +181,44 @@ func c03Faults(r *core.Run, w *world.World, d *c03Doc, B *world.PKI) []c03Fault 
 		unsigned("dup-pair-after-"+sp.tag, with(world.Envelope(world.Member{M, G}, world.Member{"signature", gsig}, world.Member{caseVariant(M, 0), E}, world.Member{sp.key, fsig}), nil), "an unsigned (member, signature) pair after the genuine pair")
 	}
 	unsigned("extra-unrelated-member", with(world.Envelope(world.Member{"advisory", []byte(`{"x":[1,2,3]}`)}, world.Member{M, G}, world.Member{"signature", gsig}), nil), "unrelated extra member")
+	// documents genuinely signed by the TCB signer but of the wrong kind: wrong id, wrong version,
+	// no levels — alone, and together with an unsigned decoy member (case variant, after the
+	// genuine one) that carries the right id / version / levels
+	{
+		variants := map[string][]byte{}
+		if d.route == "tcb" {
+			doc := *w.Tcb
+			doc.ID = "SGX"
+			variants["signed-wrong-id"] = doc.JSON()
+			doc = *w.Tcb
+			doc.Version = 2
+			variants["signed-wrong-version"] = doc.JSON()
+			doc = *w.Tcb
+			doc.Levels = nil
+			variants["signed-empty-levels"] = doc.JSON()
+			doc.OmitLevels = true
+			variants["signed-no-levels-member"] = doc.JSON()
+		} else {
+			doc := *w.QE
+			doc.ID = "QE"
+			variants["signed-wrong-id"] = doc.JSON()
+			doc = *w.QE
+			doc.Version = 1
+			variants["signed-wrong-version"] = doc.JSON()
+			doc = *w.QE
+			doc.Levels = nil
+			variants["signed-empty-levels"] = doc.JSON()
+			doc.OmitLevels = true
+			variants["signed-no-levels-member"] = doc.JSON()
+		}
+		for _, k := range core.SortedKeys(variants) {
+			wrong := variants[k]
+			ws := sigField(w.A.TcbKey, wrong)
+			authBroken(k, with(world.Envelope(world.Member{M, wrong}, world.Member{"signature", ws}), nil), "the signed document does not carry the expected id / version / non-empty level list")
+			authBroken(k+"+unsigned-decoy-after", with(world.Envelope(world.Member{M, wrong}, world.Member{"signature", ws}, world.Member{strings.ToUpper(M), E}), nil), "the SIGNED document is of the wrong kind; an unsigned decoy member cannot make up for it")
+			authBroken(k+"+unsigned-decoy-before", with(world.Envelope(world.Member{caseVariant(M, 1), E}, world.Member{M, wrong}, world.Member{"signature", ws}), nil), "the SIGNED document is of the wrong kind; an unsigned decoy member cannot make up for it")
+		}
+	}
 	// missing members
 	authBroken("member-missing", with(world.Envelope(world.Member{"signature", gsig}), nil), "no signed member")
 	authBroken("signature-missing", with(world.Envelope(world.Member{M, E}), nil), "no signature")
@@ -214,7 +255,71 @@ func partialOverride(e []byte) []byte {
 	return []byte("{" + s[i:])
 }
 
+// c03DefaultAnchor: no pool is configured, so the embedded Intel root is the only anchor.  The
+// quote is Intel's genuine sample quote (accepted at the base level); the endpoint serves
+// collateral that says "UpToDate" for every platform, signed under a hierarchy whose root is a
+// perfect look-alike of the embedded root (same raw subject, serial, key identifier, validity;
+// own key).  It must not be accepted.
+func c03DefaultAnchor(r *core.Run) {
+	t := r.T
+	intel := embeddedIntelRoot()
+	if intel == nil {
+		r.Eventf("embedded root not readable")
+		return
+	}
+	ref := time.Date(2023, 7, 1, 1, 0, 0, 0, time.UTC)
+	I := world.NewLookalikeOf(t, "I", intel, ref)
+	raw := testdata.RawQuote
+	// facts about the sample quote, read with the simulator's own layout table
+	body := raw[world.HeaderLen : world.HeaderLen+world.BodyLen]
+	qeOff := world.SigDataO + 64 + 64 + 6
+	qe := raw[qeOff : qeOff+world.QEReportLen]
+	tcb := &world.TcbInfoDoc{ID: "TDX", Version: 3, Issue: ref.AddDate(0, 0, -5), Next: ref.AddDate(0, 0, 25), Fmspc: "50806f000000", PceID: "0000", EvalNum: 99,
+		ModSigner: append([]byte(nil), body[64:112]...), ModMask: make([]byte, 8), ModAttr: make([]byte, 8),
+		Levels: []world.TcbLevel{{Status: "UpToDate"}}}
+	if body[1] != 0 {
+		tcb.Modules = []world.ModuleIdentity{{ID: fmt.Sprintf("TDX_%02d", body[1]), Mrsigner: tcb.ModSigner, Attr: tcb.ModAttr, Mask: tcb.ModMask, Levels: []world.ModLevel{{Isvsvn: 0, Status: "UpToDate"}}}}
+	}
+	qid := &world.QEIdentityDoc{ID: "TD_QE", Version: 2, Issue: ref.AddDate(0, 0, -5), Next: ref.AddDate(0, 0, 25), EvalNum: 99,
+		Misc: make([]byte, 4), MiscMask: make([]byte, 4), Attr: make([]byte, 16), AttrMask: make([]byte, 16),
+		Mrsigner: append([]byte(nil), qe[128:160]...), ProdID: int(qe[256]) | int(qe[257])<<8, Levels: []world.QELevel{{Isvsvn: 0, Status: "UpToDate"}}}
+	pcs := world.NewPCS()
+	pcs.Tcb["50806f000000"] = &world.Endpoint{Hdr: map[string][]string{world.HdrTcbInfo: {world.IssuerChainHeader(I.Tcb, I.Root)}}, Body: world.SignedBody("tcbInfo", tcb.JSON(), I.TcbKey)}
+	pcs.QE = &world.Endpoint{Hdr: map[string][]string{world.HdrQE: {world.IssuerChainHeader(I.Tcb, I.Root)}}, Body: world.SignedBody("enclaveIdentity", qid.JSON(), I.TcbKey)}
+	crl := world.CRLSpec{This: ref.AddDate(0, 0, -5), Next: ref.AddDate(0, 0, 25), Number: 7}
+	pcs.PckCrl["platform"] = &world.Endpoint{Hdr: map[string][]string{world.HdrPckCrl: {world.IssuerChainHeader(I.Plat, I.Root)}}, Body: world.MakeCRL(crl, I.Plat, I.PlatKey)}
+	for _, u := range I.Root.X.CRLDistributionPoints {
+		pcs.ByURL[u] = &world.Endpoint{Body: world.MakeCRL(crl, I.Root, I.RootKey)}
+	}
+	ts := [5]time.Time{ref, ref, ref, ref, ref}
+	if o := verifyRaw(raw, mkOpts(O0, pcs, nil, ts)); !o.Accepted() {
+		r.Count("control_failed", 1)
+		r.Eventf("default-anchor control (base level) failed: %s", errClass(o))
+		return
+	}
+	for _, level := range []int{O1, O2} {
+		item := "default-anchor:collateral-under-intel-lookalike:" + optNames[level]
+		if !r.Item(item) {
+			continue
+		}
+		o := verifyRaw(raw, mkOpts(level, pcs, nil, ts))
+		r.Eval()
+		r.Eventf("%s -> %s", item, errClass(o))
+		r.State("%s", item)
+		if o.Accepted() {
+			r.Violate("C03:accepted:default-anchor:collateral-signed-under-lookalike-root", "no pool configured (embedded Intel root): collateral signed under a look-alike of that root (own key) was accepted at level %s for Intel's sample quote", optNames[level])
+		}
+		r.EndItem()
+	}
+	r.Fault("pcs:lookalike-of-embedded-root", true)
+	r.Probe("default_anchor_lookalike_collateral")
+}
+
 func c03Run(r *core.Run) {
+	if r.Index%12 == 11 {
+		c03DefaultAnchor(r)
+		return
+	}
 	t := r.T
 	w := world.NewWorld(t, world.Cfg{Processor: 1, AuthLen: 0})
 	B := world.NewPKI(t, "B", w.Epoch, w.A)
@@ -446,6 +551,6 @@ func init() {
 			return 46
 		},
 		Run:       c03Run,
-		MustProbe: []string{"flavour_down", "flavour_up", "dup_member_after_genuine_with_flipping_content"},
+		MustProbe: []string{"flavour_down", "flavour_up", "dup_member_after_genuine_with_flipping_content", "default_anchor_lookalike_collateral"},
 	})
 }
